@@ -11,7 +11,7 @@ Definition can_retry (r : option nat) : bool :=
 Record sol_step (s : ostate) (o : list oobs) (s' : ostate) : Prop := {
   sol_view : (s_unsol s', s_unsol_seq s', s_unsol_buf s', s_now s', s_deferred s', s_pending s', s_enabled s')
              = (s_unsol s, s_unsol_seq s, s_unsol_buf s, s_now s, s_deferred s, s_pending s, s_enabled s);
-  sol_ctl : is_uw (s_control s) = false /\ is_uw (s_control s') = false;
+  sol_uw : is_uw (s_control s) = false /\ is_uw (s_control s') = false;
   sol_out : last_ok s -> Forall solob o /\ last_ok s'
 }.
 
@@ -302,11 +302,11 @@ Proof.
         destruct (advance 64 cfg s1 (s_now s1 + settle_ms)) as [s2 o2] eqn:E2. inv_pair H.
         exists s1, o1, s', o2. split; [eapply idle_loop_micros; [|exact E1]; exact Ec|]. repeat split; auto.
       - destruct (advance 64 cfg (upd_notify s0 true) (s_now (upd_notify s0 true) + settle_ms)) as [s2 o2] eqn:E2.
-        inv_pair H. exists (upd_notify s0 true), [], s', o2.
-        split; [apply ms_one; apply mi_skip; reflexivity|]. repeat split; auto.
+        inv_pair H. exists (upd_notify s0 true), []. do 2 eexists.
+        split; [apply ms_one; apply mi_skip; reflexivity|]. split; [exact E2|]. split; reflexivity.
       - destruct (advance 64 cfg (upd_notify s0 true) (s_now (upd_notify s0 true) + settle_ms)) as [s2 o2] eqn:E2.
-        inv_pair H. exists (upd_notify s0 true), [], s', o2.
-        split; [apply ms_one; apply mi_skip; reflexivity|]. repeat split; auto. }
+        inv_pair H. exists (upd_notify s0 true), []. do 2 eexists.
+        split; [apply ms_one; apply mi_skip; reflexivity|]. split; [exact E2|]. split; reflexivity. }
     destruct Hfirst as (s1 & o1 & s2 & o2 & Hm1 & E2 & -> & ->).
     apply (advance_micros cfg e) in E2. destruct E2 as (s3 & Hm & Hs & Hq).
     exists s3. split.
